@@ -147,8 +147,25 @@ def make_call(rng, c, bases):
 
 
 def mutate(rng, r):
-    """in-place damage to a returned container, the way a careless caller might"""
+    """in-place damage to a returned container (and to the containers nested in it), the way a careless caller might"""
     if isinstance(r, dict) and r:
+        nested = [k for k, v in r.items() if isinstance(v, (dict, list)) and v]
+        if nested and rng.random() < 0.7:
+            # edit a nested container in place (e.g. the discretised grading or a list handed out inside a result dict)
+            for k in nested:
+                v = r[k]
+                if isinstance(v, dict):
+                    kk = rng.choice(list(v.keys()))
+                    if rng.random() < 0.5 and len(v) > 2:
+                        del v[kk]
+                    else:
+                        v[kk] = v[kk] * 1.5 if isinstance(v[kk], (int, float)) else 99.0
+                else:
+                    if rng.random() < 0.5:
+                        v.clear()
+                    else:
+                        v[0] = 99.0
+            return True
         k = rng.choice(list(r.keys()))
         if isinstance(r[k], list):
             r[k].clear()
